@@ -14,8 +14,10 @@ import (
 	"encoding/json"
 	"fmt"
 	"os"
+	"path/filepath"
 	"runtime/debug"
 	"strings"
+	"sync/atomic"
 
 	clog "github.com/33cn/chain33/common/log"
 	drivers "github.com/33cn/chain33/system/store"
@@ -27,7 +29,7 @@ import (
 	"verif/vx"
 )
 
-var keys = []string{"a", "b", "c"}
+var keys = []string{"a", "b", "c", "d"}
 
 // write lists: 3 keys x 2 values, singles and pairs (W = empty is the Empty / EmptySet event)
 var wlists = [][]string{
@@ -38,6 +40,8 @@ var wlists = [][]string{
 	{"a", "1", "b", "1"},
 	{"c", "1"},
 	{"c", "2", "a", "2"},
+	{"a", "1", "b", "1", "c", "1", "d", "1"}, // 7: four keys at once (second-level histories: a tree with inner nodes below the root)
+	{"d", "2"},                               // 8
 }
 
 func wname(i int) string {
@@ -64,6 +68,7 @@ type harness struct {
 	ops    []int  // op codes: < 100 = Commit(wlists[code]); 100+ = fixed events
 	depth  int
 	shards bool
+	driver string // "" = in-memory backend; "leveldb" = goleveldb in a scratch directory (closed and removed after the execution)
 }
 
 func opset(nW int, fixed ...int) (l []int) {
@@ -78,7 +83,10 @@ func opset(nW int, fixed ...int) (l []int) {
 
 var allFixed = []int{opEmpty, opEmptySet, opFork1, opFork2, opPrune, opJump}
 
+var ldbSeq int64
+
 type sys struct {
+	dir      string // scratch directory of the goleveldb backend
 	h        harness
 	cfg      mvx.Cfg
 	st       *mavl.Store
@@ -335,7 +343,18 @@ func (h harness) seq(r *vx.Run) *vx.Seq[*sys] {
 		mvx.ResetGlobals(cfg)
 		mavldb.VerifResetPrune()
 		mavldb.VerifSetPruning(true)
+		if h.driver == "leveldb" {
+			dir := filepath.Join(vx.Root(), ".work", "c05", fmt.Sprintf("ldb-%d-%d", os.Getpid(), atomic.AddInt64(&ldbSeq, 1)))
+			os.RemoveAll(dir)
+			return &sys{h: h, cfg: cfg, st: mvx.Open(cfg, "leveldb", dir), dir: dir, everRoot: map[string]int64{}, abandoned: map[int64]bool{}}
+		}
 		return &sys{h: h, cfg: cfg, st: mvx.Open(cfg, "memdb", ""), everRoot: map[string]int64{}, abandoned: map[int64]bool{}}
+	}
+	q.Close = func(s *sys) {
+		if s.dir != "" {
+			s.st.Close()
+			os.RemoveAll(s.dir)
+		}
 	}
 	q.OpName = h.opName
 	suppress := func(s *sys, f string) string {
@@ -511,10 +530,10 @@ func main() {
 	r.Assume = []string{"values are non-empty", "the model follows the current chain only; abandoned branches may be pruned", "background trigger: the pruning goroutine is awaited right after the commit that started it (one schedule; the interleaved schedules belong to the scheduler-based part)", "in-memory backend with the adapter that lets a batch delete an absent key (goleveldb semantics)", "level-1 subtrees are distributed over worker processes: depth-1/2 transitions are counted once per worker"}
 	forkOps := []int{4, 1, 3, 100 + opEmpty, 100 + opFork1, 100 + opPrune} // [a=1,b=1], [a=2], [b=2], EmptyHeight, Fork(1), Prune
 	hs := []harness{
-		{"ph2-set", 2, "set", opset(r.Pick(6, 7), allFixed...), r.Pick(5, 7), true},
-		{"ph3-memset", 3, "memset", opset(r.Pick(5, 7), allFixed...), r.Pick(4, 6), true},
-		{"ph2-background", 2, "background", opset(r.Pick(5, 7), allFixed...), r.Pick(4, 6), true},
-		{"ph2-memset-fork-deep", 2, "memset", forkOps, r.Pick(7, 9), true},
+		{"ph2-set", 2, "set", opset(r.Pick(6, 7), allFixed...), r.Pick(5, 7), true, ""},
+		{"ph3-memset", 3, "memset", opset(r.Pick(5, 7), allFixed...), r.Pick(4, 6), true, ""},
+		{"ph2-background", 2, "background", opset(r.Pick(5, 7), allFixed...), r.Pick(4, 6), true, ""},
+		{"ph2-memset-fork-deep", 2, "memset", forkOps, r.Pick(7, 9), true, ""},
 	}
 	if raw, ok := r.Replaying(); ok {
 		var c struct {
@@ -536,6 +555,12 @@ func main() {
 		for _, h := range hs {
 			if h.name == c.Harness {
 				h.shards = false
+				f = h.seq(r).ReplayHist(c.Hist)
+			}
+		}
+		for _, drv := range []string{"", "leveldb"} {
+			h := harness{"second-level-" + map[string]string{"": "memdb", "leveldb": "goleveldb"}[drv], 2, "set", append(opset(9), 100+opJump, 100+opPrune), 9, false, drv}
+			if h.name == c.Harness {
 				f = h.seq(r).ReplayHist(c.Hist)
 			}
 		}
@@ -562,6 +587,52 @@ func main() {
 	}
 	if sh, _ := r.Shard(); sh == 0 && os.Getenv("C05_ONLY") == "" {
 		concurrentPart(r)
+	}
+	// second-level part: enumerated histories that move version-index entries to the second level and
+	// then prune there (a four-key tree, so that leaves have inner nodes below the root), on the
+	// in-memory backend and on goleveldb (whose iterator reuses its buffers); split over the shards
+	if os.Getenv("C05_ONLY") == "" {
+		sh, nsh := r.Shard()
+		if nsh == 0 {
+			nsh = 1
+		}
+		J, P := 100+opJump, 100+opPrune
+		rew := []int{1, 3, 8, 6} // a=2, b=2, d=2, [c=2,a=2]
+		var hists [][]int
+		for _, x := range rew {
+			for _, y := range rew {
+				hists = append(hists, []int{7, x, J, J, y, P}, []int{7, x, P, J, J, y, P, y, P}, []int{7, x, y, J, J, x, P, 4, P})
+			}
+		}
+		item := 0
+		for _, drv := range []string{"", "leveldb"} {
+			h := harness{"second-level-" + map[string]string{"": "memdb", "leveldb": "goleveldb"}[drv], 2, "set", append(opset(9), J, P), 9, false, drv}
+			q := h.seq(r)
+			idx := map[int]int{}
+			for i, o := range h.ops {
+				idx[o] = i
+			}
+			for _, hist := range hists {
+				item++
+				if item%nsh != sh || r.Expired("second-level histories") {
+					continue
+				}
+				hh := make([]int, len(hist))
+				for i, o := range hist {
+					hh[i] = idx[o]
+				}
+				r.Count("executions", 1)
+				r.Count("second_level_histories", 1)
+				r.Count("transitions", int64(len(hh)))
+				if f := q.ReplayHist(hh); f != "" {
+					fp := h.name + ":" + vx.Norm(f, 60)
+					if q.FP != nil {
+						fp = q.FP(f, hh)
+					}
+					r.Violate(fp, f+" after "+fmt.Sprint(hist)+" on "+h.name, map[string]interface{}{"harness": h.name, "hist": hh}, func() string { return q.ReplayHist(hh) })
+				}
+			}
+		}
 	}
 	r.Finish()
 }
